@@ -19,7 +19,15 @@ EXPLANATION = (
     "is base32(backupdb_dirhash(join of netstring(name)+netstring(cap) over every entry of contents)): both "
     "components framed, every child included, the cap taken from contents[name]; (4) tahoe_backup skips an upload / "
     "mkdir only when was_uploaded()/was_created() is truthy, passes use_timestamps = not ignore-timestamps, records "
-    "the cap the grid returned and reuses the cap the database returned. "
+    "the cap the grid returned and reuses the cap the database returned; (5) every fileid written to local_files / "
+    "last_upload is, on every path, the key of the caps row of the cap being recorded: column fileid fetched FROM caps "
+    "WHERE filecap=<that cap>, or cursor.lastrowid read directly after an INSERT INTO caps of that cap that completed "
+    "normally and is not OR IGNORE (after a swallowed error or an ignored duplicate lastrowid is the rowid of an "
+    "earlier insert, i.e. another file's cap); (6) the size/mtime/ctime written to local_files originate, through every "
+    "store of the FileResult attributes in any method, from an os.stat made outside the code reachable from "
+    "FileResult.did_upload (the values check_file saw before the upload, not a re-stat when it has finished), and "
+    "BackerUpper.upload calls check_backupdb_file before it reads the file and reports did_upload to the result it got "
+    "before the PUT. "
     "Undecided: SQLite semantics, os.stat granularity (a change that preserves size, mtime and ctime), sorting of "
     "the directory entries (affects only how often a directory is re-created, not wrong reuse - planned clause "
     "dropped), probability arithmetic of should_check.")
@@ -868,3 +876,158 @@ def run(ctx: Context):
                 rn = fnorm.norm(n, c.func.value)
                 r.require(re.match(r"^self\.%s\(.*\)\[1\]$" % checker, rn) is not None, fn, fn.loc(c),
                           "%s returns %s.%s(), not the answer for this %s" % (meth, rn, probe, "file" if meth == "upload" else "directory"))
+
+    # -- 5. the fileid that links a path to its cap ---------------------------
+    with ctx.rule("C42.5", "R5", "the fileid written to local_files / last_upload is the key of the caps row that holds "
+                  "the cap being recorded: column fileid fetched FROM caps WHERE filecap=<that cap>, or lastrowid "
+                  "directly after an INSERT INTO caps of that cap that is known to have inserted a row", expected=5) as r:
+        def caps_key(fn, c, sql, b, ro):
+            """Is role `ro` (one unmerged part) the key of the caps row of the recorded cap?  Reports otherwise."""
+            where = "%r: the value %s bound to column 'fileid'" % (sql.text, src(fn, b))
+            if ro is None:
+                raise AnalysisError("cannot determine where the value %s bound to fileid in %r comes from" % (src(fn, b), sql.text))
+            if ro[0] == "bad":
+                r.violation(ro[2], ro[2].loc(ro[3]), "%s does not identify the caps row of the recorded cap, so the path "
+                            "is linked to another file's cap: %s" % (where, ro[1]))
+                return
+            if not (ro[0] == "db" and ro[1] == "fileid"):
+                r.violation(fn, fn.loc(c), "%s is %s, not the fileid of the caps row of the recorded cap" % (
+                    where, roles.sem(ro) or ro[0]))
+                return
+            ex, xfn = ro[2], ro[3]
+            sql2 = roles.sql_of(xfn, ex)
+            if sql2.tables != ["caps"]:
+                r.violation(xfn, xfn.loc(ex), "%s comes from %r, not from the caps table" % (where, sql2.text))
+                return
+            if sql2.kind == "SELECT":
+                ok = sql2.where == ["filecap"]
+            else:
+                ok = sql2.kind == "INSERT" and sql2.ph == ["filecap"]
+            if not ok:
+                r.violation(xfn, xfn.loc(ex), "%s comes from %r, which does not select the caps row by its filecap: the "
+                            "fileid of some other cap is recorded for the path" % (where, sql2.text))
+                return
+            xn = roles.node_of(xfn, ex)
+            xb = roles.flow(xfn).resolve(xn, arg(ex, 1))
+            if not (isinstance(xb, (ast.Tuple, ast.List)) and len(xb.elts) == 1):
+                raise AnalysisError("values bound to %r are not a literal 1-tuple" % sql2.text)
+            cr = roles.role(xfn, xn, xb.elts[0])
+            r.require(roles.sem(cr) == "filecap", xfn, xfn.loc(ex), "%r looks the caps row up with %s, which is %s, not the "
+                      "cap being recorded" % (sql2.text, src(xfn, xb.elts[0]), roles.sem(cr) or "of unknown meaning"))
+
+        for fn in sorted(dbc.methods.values(), key=lambda f: f.lineno):
+            for n in fn.cfg().nodes:
+                for c in calls_at(n, "execute"):
+                    sql = roles.sql_of(fn, c)
+                    if sql.kind == "SELECT" or "caps" in sql.tables or "fileid" not in sql.ph:
+                        continue
+                    r.site(fn, c, sql.text[:50])
+                    binds = roles.flow(fn).resolve(n, arg(c, 1))
+                    if not isinstance(binds, (ast.Tuple, ast.List)) or len(binds.elts) != len(sql.ph):
+                        raise AnalysisError("values bound to %r are not a literal tuple of %d" % (sql.text, len(sql.ph)))
+                    for col, b in zip(sql.ph, binds.elts):
+                        if col != "fileid":
+                            continue
+                        before = len(r.violations)
+                        for part in roles.parts(roles.role(fn, n, b)):
+                            if len(r.violations) == before:
+                                caps_key(fn, c, sql, b, part)
+        r.count(roles.states)
+
+    # -- 6. the recorded metadata was observed before the content was read ---
+    with ctx.rule("C42.6", "R1", "the size/mtime/ctime stored with an uploaded cap are the os.stat values check_file observed "
+                  "before the upload read the file (never a stat made in code reachable from FileResult.did_upload), and "
+                  "tahoe_backup.upload consults the database before it reads the file and reports the upload to that result",
+                  expected=4) as r:
+        root = idx.func(BDB + ":FileResult.did_upload")
+        by_name = {}
+        for f in roles.funcs:
+            by_name.setdefault(f.cls.name if (f.name == "__init__" and f.cls is not None) else f.name, []).append(f)
+        post, work = {}, [root]
+        while work:
+            f = work.pop()
+            if f.qual in post:
+                continue
+            post[f.qual] = f
+            work.extend(f.nested.values())
+            for x in ast.walk(f.node):
+                if isinstance(x, ast.Call):
+                    work.extend(by_name.get(call_tail(x), []))
+        r.count(len(post))
+        for fn in sorted(dbc.methods.values(), key=lambda f: f.lineno):
+            for n in fn.cfg().nodes:
+                for c in calls_at(n, "execute"):
+                    sql = roles.sql_of(fn, c)
+                    if sql.kind not in ("INSERT", "UPDATE") or sql.tables != ["local_files"]:
+                        continue
+                    written = sql.ph[:len(sql.ph) - len(sql.where)] if sql.kind == "UPDATE" else sql.ph
+                    if not ({"size", "mtime", "ctime"} & set(written)):
+                        continue
+                    r.site(fn, c, sql.text[:50])
+                    binds = roles.flow(fn).resolve(n, arg(c, 1))
+                    if not isinstance(binds, (ast.Tuple, ast.List)) or len(binds.elts) != len(sql.ph):
+                        raise AnalysisError("values bound to %r are not a literal tuple of %d" % (sql.text, len(sql.ph)))
+                    for col, b in zip(written, binds.elts):
+                        if col not in ("size", "mtime", "ctime"):
+                            continue
+                        for part in roles.parts(roles.role(fn, n, b)):
+                            if part is None:
+                                raise AnalysisError("cannot determine where the %s recorded by %r comes from" % (col, sql.text))
+                            if part[0] == "bad":
+                                r.violation(part[2], part[2].loc(part[3]), "%r: the %s recorded is %s" % (sql.text, col, part[1]))
+                            elif part[0] != "stat":
+                                r.violation(fn, fn.loc(c), "%r: the %s recorded with the cap (%s) is %s, not a value os.stat "
+                                            "returned for the file" % (sql.text, col, src(fn, b), roles.sem(part) or part[0]))
+                            elif part[3].qual in post:
+                                r.violation(part[3], part[3].loc(part[2]), "the %s recorded with the uploaded cap by %r is read "
+                                            "by %s in %s, which runs when the upload has finished: a file modified while it "
+                                            "was being uploaded is recorded as unchanged and the cap of its old content is "
+                                            "reused; the values check_file observed before the upload must be stored" % (
+                                                col, sql.text, src(part[3], part[2]), short(part[3])))
+        # tahoe_backup.upload: database first, then the content, then the report
+        fn = idx.func(TB + ":BackerUpper.upload")
+        cfg = fn.cfg()
+        fnorm = FlowNorm(fn)
+        folder = get_folder(idx)
+
+        def is_put(c):
+            if call_tail(c) != "do_http" or not c.args:
+                return False
+            try:
+                return folder.fold(c.args[0], fn.module, fn.cls) == "PUT"
+            except NotConstant:
+                return False
+
+        def reads(n):
+            for c in node_calls(n):
+                if is_put(c):
+                    return True
+                if call_tail(c) in ("read", "readlines", "readinto") and isinstance(c.func, ast.Attribute):
+                    d = fnorm.resolve(n, c.func.value)
+                    if isinstance(d, ast.Call) and call_tail(d) == "open":
+                        return True
+            return False
+        puts = [n for n in cfg.nodes if any(is_put(c) for c in node_calls(n))]
+        checks = [n for n in cfg.nodes if calls_at(n, "check_backupdb_file")]
+        dids = [(n, c) for n in cfg.nodes for c in calls_at(n, "did_upload")]
+        if not puts or not checks or not dids:
+            raise AnchorVanished("BackerUpper.upload no longer has check_backupdb_file / do_http('PUT') / did_upload")
+        is_check = lambda n: any(n is k for k in checks)
+        r.site(fn, checks[0].ast, "database consulted before the content is read")
+        for (n, w) in find_path_avoiding(cfg, reads, gate_node=is_check):
+            r.violation(fn, fn.loc(n.ast), "upload reads the file's content before check_backupdb_file examined the file: the "
+                        "size/mtime/ctime recorded with the cap are then observed after the content, and a file modified in "
+                        "between is recorded as unchanged (path: %s)" % w.brief(), w)
+        r.site(fn, dids[0][1], "did_upload goes to the result obtained before the upload")
+        r.count(len(cfg.nodes))
+        for (dn, dc) in dids:
+            if is_check(dn):
+                r.violation(fn, fn.loc(dc), "did_upload is reported to a result obtained after the upload")
+                continue
+            recv = dc.func.value
+            rname = recv.id if isinstance(recv, ast.Name) else None
+            redo = lambda n, rname=rname: is_check(n) and (rname is None or rname in node_stores(n))
+            for (n, w) in find_path_avoiding(cfg, lambda x, dn=dn: x is dn, gate_node=lambda x: any(x is p for p in puts), kill=redo):
+                r.violation(fn, fn.loc(dc), "did_upload is reached without the upload, or on a result that check_backupdb_file "
+                            "produced after the content was sent: its size/mtime/ctime were observed after the upload "
+                            "(path: %s)" % w.brief(), w)
